@@ -52,7 +52,7 @@ def fmt_log(log, n=40):
     return out
 
 
-def execute(scn, prefix=(), part=None, keep_world=False, watchdog_s=20):
+def execute(scn, prefix=(), part=None, keep_world=False, watchdog_s=20, digest=False):
     w = World(**(scn.world_kw or {}))
     ch = Chooser(prefix)
     x = Exec()
@@ -89,8 +89,8 @@ def execute(scn, prefix=(), part=None, keep_world=False, watchdog_s=20):
         x.taken, x.points = ch.taken, ch.points
         x.spelled = ch.spelled()
         x.nlog = len(w.log)
-        x.digest = h64(repr(w.log))
-        x.log_tail = fmt_log(w.log, 60)
+        x.digest = h64(repr(w.log)) if digest else None
+        x.log_tail = fmt_log(w.log, 60) if (viols or digest) else []
         if not keep_world:
             w.teardown()
     x.violations = viols
@@ -111,8 +111,9 @@ def record(scn, x, part, prop_prefix=''):
 
 
 def check_determinism(scn, x):
-    y = execute(scn, x.taken)
-    if y.digest != x.digest or y.taken != x.taken:
+    a = execute(scn, x.taken, digest=True)
+    y = execute(scn, x.taken, digest=True)
+    if y.digest != a.digest or y.taken != x.taken or a.taken != x.taken or repr(a.violations) != repr(x.violations):
         raise HarnessError('non-deterministic replay of %s %r choices %r' % (scn.name, scn.params, x.taken))
 
 
@@ -155,8 +156,8 @@ def replay_witness(scn, witness, verbose=True):
     """Re-execute a stored schedule step by step on a fresh world, without the explorer. Returns violations."""
     prefix = [tuple([c[0], tuple(c[1])]) for c in witness['choices']]
     prefix = [[c[0], list(c[1])] for c in witness['choices']]
-    x1 = execute(scn, prefix)
-    x2 = execute(scn, prefix)
+    x1 = execute(scn, prefix, digest=True)
+    x2 = execute(scn, prefix, digest=True)
     if x1.digest != x2.digest:
         raise HarnessError('replay is not deterministic')
     if verbose:
